@@ -182,6 +182,60 @@ def phase_trees(chk, V, n):
         V.case(f'trees-{k}', payload, good, same(ci, cm), known, (l, T.rust_name(t), json.dumps(c, sort_keys=True), tuple(g)) if T.depth(t) >= 2 else None)
 
 
+
+# ---------------------------------------------------------------------------------------------- seq
+def leaf_ids(t):
+    return [x['id'] for x in T.subtrees(t) if x['k'] == 'simple']
+
+
+def phase_seq(chk, V, n):
+    """format_type is a function of (configuration, generics, type): the SAME Language value is asked call after call - the same
+    non-trivial type under generics lists that differ in whether one of its leaf names is a generic parameter of the enclosing item
+    (a struct Item next to a struct Page<Item>), interleaved with unrelated types - and every answer is judged like a fresh call
+    (seeded C05_c: a per-run memo keyed by the type alone)."""
+    rng = chk.rng
+    seqs = []
+    for k in range(n):
+        for l in LANGS:
+            while True:
+                t = T.rand_type(rng, rng.choice([1, 2, 2, 3]), [])
+                ids = leaf_ids(t)
+                if ids and t['k'] != 'simple':
+                    break
+            x = rng.choice(ids)
+            other = T.rand_type(rng, rng.choice([1, 2]), ['T'])
+            calls = rng.choice([[([], t), ([x], t), ([], t)], [([x], t), ([], t), ([x], t)], [([], other), ([x], t), (['T'], other), ([], t)],
+                                [([x, 'T'], t), (['T'], t), (['T'], other)]])
+            seqs.append((l, T.rand_cfg(rng, l, [t], []), calls))
+    sres = vf.impl([{'cmd': 'c05_format_seq', 'lang': l, 'cfg': c, 'calls': [{'generics': g, 'ty': t} for g, t in calls]} for l, c, calls in seqs])
+    cases, ires = [], []
+    for (l, c, calls), r in zip(seqs, sres):
+        answers = r.get('seq') if isinstance(r.get('seq'), list) and len(r['seq']) == len(calls) else [r] * len(calls)
+        for pos, ((g, t), a) in enumerate(zip(calls, answers)):
+            cases.append((l, c, g, t, pos, calls))
+            ires.append(a)
+    fresh = impl_fmt([(l, c, g, t) for l, c, g, t, _, _ in cases])
+    mres = model_fmt([(l, c, g, t) for l, c, g, t, _, _ in cases])
+    obs = [observe(l, c, i['ok']) if 'ok' in i else (None, None) for (l, c, g, t, _, _), i in zip(cases, ires)]
+    jres = judge([(l, c, g, t, o[0]) for (l, c, g, t, _, _), o in zip(cases, obs)])
+    for k, ((l, c, g, t, pos, calls), i, f, m, (o, e), (dom, known, good, erase)) in enumerate(zip(cases, ires, fresh, mres, obs, jres)):
+        ci, cf, cm = canon_impl(i), canon_impl(f), canon_model(m)
+        payload = {'phase': 'seq', 'lang': l, 'cfg': c, 'calls': [{'generics': gg, 'rust': T.rust_name(tt), 'type': tt} for gg, tt in calls], 'position': pos,
+                   'generics': g, 'type': t, 'rust': T.rust_name(t), 'impl_in_sequence': ci, 'impl_fresh': cf, 'model': cm,
+                   'observed': T.show_tree(o) if o else e, 'expected': T.show_tree(erase), 'known': known}
+        chk.count('seq_calls')
+        if not dom:
+            chk.count('seq_outside_dom')
+            continue
+        if not same(ci, cf):
+            chk.count('seq_history_dependent')
+        if e is not None:
+            chk.violation(f'seq-{k}', payload, 'the real type text (asked in a sequence of calls on one Language value) is not a type expression of the target language template: ' + e)
+            continue
+        V.case(f'seq-{k}', payload, good, same(ci, cm), known, (l, 'seq', T.rust_name(t), tuple(g), pos) if pos > 0 else None,
+               what='the same Language value, asked for the same type under a different generics list after an earlier call, answers with a text that is '
+                    'not the structural translation (the translation depends on the call history)')
+
 # ---------------------------------------------------------------------------------------------- front
 BAD_LEAVES = ['u64', 'i64', 'usize', 'isize', '(u8, String)', 'fn(u8) -> u8', '[u8; N]']
 
@@ -303,6 +357,7 @@ def run(chk):
     phase_prims(chk, V)
     phase_trees(chk, V, 2000 if quick else 30000)
     phase_front(chk, V, 3000 if quick else 60000)
+    phase_seq(chk, V, 150 if quick else 2500)
     import c05_sites
     c05_sites.phase_sites_ir(chk, V, 200 if quick else 3000)
     c05_sites.phase_sites_src(chk, V, 100 if quick else 1500)
@@ -326,6 +381,19 @@ def replay(chk, path):
         print('observed tree:', T.show_tree(o) if o else e)
         print('expected tree:', T.show_tree(erase), ' dom', dom, 'known', known, 'good', good)
         return 0 if good else 1
+    if ph == 'seq':
+        calls = [(c['generics'], c['type']) for c in d['calls']]
+        r = vf.impl([{'cmd': 'c05_format_seq', 'lang': d['lang'], 'cfg': d['cfg'], 'calls': [{'generics': g, 'ty': t} for g, t in calls]}])[0]
+        rc = 0
+        for pos, ((g, t), a) in enumerate(zip(calls, r.get('seq') or [r] * len(calls))):
+            case = (d['lang'], d['cfg'], g, t)
+            f, m = impl_fmt([case])[0], model_fmt([case])[0]
+            o, e = observe(d['lang'], d['cfg'], a['ok']) if 'ok' in a else (None, None)
+            dom, known, good, erase = judge([case + (o,)])[0]
+            print(f'call {pos}: {T.rust_name(t)} generics {g}: in sequence {canon_impl(a)}  fresh {canon_impl(f)}  model {canon_model(m)}  good {good}')
+            if dom and not good:
+                rc = 1
+        return rc
     if ph == 'prims':
         case = (d['lang'], BASE[d['lang']], [], ir.special(d['prim']))
         print('impl :', canon_impl(impl_fmt([case])[0]), ' model:', canon_model(model_fmt([case])[0]), ' spec table:', d.get('spec_table'))
